@@ -14,6 +14,7 @@ def run(ctx):
     if ctx.tier == "quick":
         dscommon.run_family(ctx, "C03K2", fmt="text", nontrivial_fn=lambda o: bool(o["opts"]["given"]))
         dscommon.run_family(ctx, "C03ClimK1", fmt="text", nontrivial_fn=lambda o: bool(o["opts"]["given"]))
+        dscommon.run_family(ctx, "C03K1", fmt="netcdf", nontrivial_fn=lambda o: bool(o["opts"]["given"]))
     else:
         dscommon.run_family(ctx, "C03K3", fmt="text", nontrivial_fn=lambda o: bool(o["opts"]["given"]), timeout_s=1800)
         dscommon.run_family(ctx, "C03K2", fmt="netcdf", nontrivial_fn=lambda o: bool(o["opts"]["given"]))
